@@ -98,15 +98,16 @@ func ruleExecQueueAfterWait(c *Check, a *Analysis, rule string) {
 		if q == nil {
 			continue
 		}
-		eachInstr(fn, func(in ssa.Instruction) {
+		eachInstrCtx(fn, func(in, at ssa.Instruction, res func(ssa.Value) ssa.Value) {
 			cc, ok := in.(*ssa.Call)
-			if !ok || !cc.Common().IsInvoke() || cc.Common().Method.Name() != "Close" || !sameQueue(p, cc.Common().Value, q) {
+			if !ok || !cc.Common().IsInvoke() || cc.Common().Method.Name() != "Close" || !sameQueue(p, res(cc.Common().Value), q) {
 				return
 			}
 			n++
 			after := false
 			for _, w := range waits {
-				if p.dominatesInstr(w.(ssa.Instruction), in) {
+				// a Close inside a helper happens where fn calls the helper
+				if p.dominatesInstr(w.(ssa.Instruction), in) || (at != in && p.dominatesInstr(w.(ssa.Instruction), at)) {
 					after = true
 				}
 			}
@@ -128,27 +129,28 @@ func ruleInlineReplies(c *Check, a *Analysis, rule string) {
 		return
 	}
 	sc := siteCounter{}
-	for _, s := range callsIn(sr, "(*Server).sendResponse") {
-		if s.Parent() != sr && !p.isPlainHelper(s.Parent()) {
-			continue
-		}
-		in := s.(ssa.Instruction)
+	control := func(in ssa.Instruction) bool {
 		hb, _ := p.guardedBy(in, matchFieldEqConst("upgrade", "Heartbeat", 1))
 		cl, _ := p.guardedBy(in, matchFieldEqConst("upgrade", "Stream", 3))
-		// header decode failed: guarded by the header reader's error being non-nil
 		derr := false
-		for _, f := range []string{"invoke ServerCodec.ReadRequestHeader"} {
-			for _, h := range eventsOf(sr, f) {
-				if hc, ok := h.(*ssa.Call); ok {
-					if g, _ := p.guardedBy(in, negate(matchValueNil(p, hc))); g {
-						derr = true
-					}
+		for _, h := range eventsOf(sr, "invoke ServerCodec.ReadRequestHeader") {
+			if hc, ok := h.(*ssa.Call); ok {
+				if g, _ := p.guardedBy(in, negate(matchValueNil(p, hc))); g {
+					derr = true
 				}
 			}
 		}
-		ok := hb || cl || derr
-		c.Ob(rule, sc.key(sr, "inline reply only for control frames"), p.InstrPos(in), ok, ifs(!ok, "ServeRequest answers a request from the decode path itself, bypassing the connection's execution queue: with pipelining its response overtakes the responses of earlier requests that are still queued or executing"))
+		return hb || cl || derr
 	}
+	// every way a sendResponse call is reached from ServeRequest (directly, or through helpers
+	// that may be shared between the inline arms) is judged at the point in ServeRequest itself
+	eachInstrCtx(sr, func(in, at ssa.Instruction, res func(ssa.Value) ssa.Value) {
+		if !isCallTo(in, "(*Server).sendResponse") {
+			return
+		}
+		ok := control(in) || (at != nil && at != in && control(at))
+		c.Ob(rule, sc.key(sr, "inline reply only for control frames"), p.InstrPos(at), ok, ifs(!ok, "ServeRequest answers a request from the decode path itself, bypassing the connection's execution queue: with pipelining its response overtakes the responses of earlier requests that are still queued or executing"))
+	})
 }
 
 // ruleReaderExitCause (C03/C06): the client reader ends only because reading a frame failed.
